@@ -86,6 +86,7 @@ void verdict_pass(void) __attribute__((noreturn));
 void verdict_fail(const char *sig, const char *fmt, ...) __attribute__((noreturn, format(printf,2,3)));
 void verdict_skip(const char *why, ...) __attribute__((noreturn, format(printf,1,2)));
 void note(const char *fmt, ...) __attribute__((format(printf,1,2)));
+void hx_ctx_add(const char *word);   /* context word appended to every later failure signature (also survives a crash) */
 extern int g_verdict_fd;
 
 /* library exit policy (set by property code before calling the library) */
@@ -122,7 +123,7 @@ extern int g_mon_strict_info;            /* 1: a thread returning early is a fin
 typedef struct {
     long events, yields, switches, takes, pipe_takes, dad_takes, go_takes, blocked_waits, spins, prunes,
          newnsuper, lusup_allocs, dyn_setmaps, threads_with_panels, npanels, nrelaxed, updates_done, updates_busy,
-         max_fill_permille, min_slack, tail_max, thread_starts, thread_exits, prune_while_dfs, takes_with_busy;
+         max_fill_permille, min_slack, tail_max, thread_starts, thread_exits, prune_while_dfs, takes_with_busy, singular_events, no_candidate, tight_slots;
 } mon_stats;
 extern mon_stats g_mon;
 
@@ -139,6 +140,7 @@ typedef struct {
 } dense_lu;
 
 int  is_perm(const int_t *p, int n);
+int  structural_rank(int n, const int_t *ptr, const int_t *ind);   /* maximum matching of an n-column CSC pattern */
 /* returns NULL if well-formed, else static description (C09 predicate) */
 const char *validate_LU(const slu_vt *vt, int n, SuperMatrix *L, SuperMatrix *U, int check_topo, int check_nnz);
 dense_lu *extract_LU(const slu_vt *vt, int n, SuperMatrix *L, SuperMatrix *U);
